@@ -33,14 +33,13 @@ ASSUMPTIONS = ['comparison after a JSON round trip with the repository\'s Entity
                'messages whose decode raises are out of scope (property quantifies over decodable messages)']
 BUDGET = {'quick': 45, 'thorough': 600}
 QUOTA = {'quick': 220, 'thorough': 4000}
-REQUIRED = {'quick': {'evaluations': 1500, 'conversions_compared': 4500, 'conservation_walks': 2000,
-                      'node_tree_checks': 1500, 'corpus_compared': 10, 'encodes_compared': 300,
-                      'cli_roundtrips': 8, 'attr_on_factor_cases': 5, 'dnp221_cases': 20,
-                      'hostile_string_cases': 100},
-            'thorough': {'evaluations': 25000, 'conversions_compared': 75000, 'conservation_walks': 30000,
-                         'node_tree_checks': 25000, 'corpus_compared': 120, 'encodes_compared': 5000,
-                         'cli_roundtrips': 150, 'attr_on_factor_cases': 100, 'dnp221_cases': 300,
-                         'hostile_string_cases': 2000}}
+REQUIRED = {'quick': {'evaluations': 1200, 'conversions_compared': 3800, 'conservation_walks': 2000,
+                      'node_tree_checks': 1500, 'corpus_compared': 6, 'encodes_compared': 300, 'cli_roundtrips': 8,
+                      'attr_on_factor_cases': 5, 'dnp221_cases': 20, 'hostile_string_cases': 100},
+            'thorough': {'evaluations': 20000, 'conversions_compared': 61000, 'conservation_walks': 30000,
+                      'node_tree_checks': 25000, 'corpus_compared': 62, 'encodes_compared': 5000, 'cli_roundtrips': 150,
+                      'attr_on_factor_cases': 100, 'dnp221_cases': 300, 'hostile_string_cases': 2000}}
+
 
 HOSTILE = [b" b'x", b"it's", b'say "hi"', b'a = b', b'-> A1', b'###### x', b'<<<<<< s', b'\\', b'\'"',
            b"x b'", b'x b"', b'#', b'3', b'None', b"b''", b'  lead', b'trail  ', b'\\x41', b'\\n', b'1 2',
